@@ -14,9 +14,7 @@
 //   * the same real function text is verified in 8 functional copies (rule R16 `case_split`): copy k keeps a few arms of `match ptg`, the other
 //     arms are cut there and verified in their own copy; splice checks that the kept sets cover all 27 arms.  Reason: one SMT query holding the
 //     terms of all 27 arms did not finish in 15 minutes, the 8 queries take 1 - 3 s each.
-//   * known deviations of the code are pinned to small lemmas (`ptgref_dollars`, `ptgref3d_reference`, `ptgarea_text`, `ptg3d_sheet`,
-//     `binary_symbol`, `ptgstr_length`): hypothesis = what the code does (checked against the real code at the call), conclusion = what
-//     [MS-XLS] requires; the conclusions that do not follow are the registered findings.
+//   * the helpers `check_ptg_len` and `push_cell_ref` (RgceArea corner -> A1 text) are extracted and verified as well.
 //
 // ORACLE (written from [MS-XLS] 2.5.198 and the property text, independent of the code): `decode` (token at the head of a byte string: its
 //   effect `Tok` on the stack of rendered operands and its size), `apply`, `step`, `run`, `render`; texts `cell_text` (RgceLoc: `$` exactly on the
@@ -163,6 +161,26 @@ pub open spec fn appended(old: Seq<char>, new: Seq<char>) -> Seq<char> { new.sub
 #[verifier::external_body] pub fn push_column(col: u32, buf: &mut String)
     ensures final(buf)@ == old(buf)@ + col_name(col as int),
 { unimplemented!() }
+
+// the two helpers of parse_formula (verbatim, verified here; the copies of parse_formula below use these contracts)
+//@@ fn src/xls.rs check_ptg_len props=C06 ret=r
+//@@ sig
+    ensures
+        //# C06.token_length_checked
+        (r is Ok) == (len >= min),
+//@@ end
+//@@ fn src/xls.rs push_cell_ref props=C14 r13
+//@@ sig
+    ensures
+        //# C14.area_corner_text
+        final(buf)@ == old(buf)@ + cell_text(row as int, col as int),
+//@@ body
+    broadcast use axiom_display_u32;
+    let ghost b0 = buf@;
+    proof { lemma_u16_masks(); lemma_cell_text(row as int, col as int); }
+//@@ after /write!\(buf, "\{\}", row as u32 \+ 1\)\.unwrap\(\);/
+    proof { assert(buf@ =~= b0 + cell_text(row as int, col as int)); }
+//@@ end
 
 //@@ props C14
 // =====================================================================================================================
@@ -718,64 +736,75 @@ proof fn lemma_run_step(rg: Seq<u8>, ops: Seq<Seq<char>>, c: Ctx)
     ensures run(rg, ops, c) == (if rg.len() == 0 { Some(ops) } else { match step(rg, ops, c) { Some((n, o2)) => run(rg.skip(n), o2, c), None => None } }),
 {}
 
-/// operand tokens: the offset is pushed, the operand's text is appended
-proof fn lemma_arm_operand(rg: Seq<u8>, ops: Seq<Seq<char>>, c: Ctx, f: Seq<char>, st: Seq<usize>, rg_out: Seq<u8>, f_out: Seq<char>, st_out: Seq<usize>)
-    ensures
-        (decode(rg, c) matches Some((Tok::Operand(t), n)) && blen(f) <= usize::MAX && f_out =~= f + t && st_out =~= st.push(blen(f) as usize) && rg_out =~= rg.skip(n))
-            ==> arm_ok(rg, ops, c, f, st, rg_out, f_out, st_out),
+proof fn lemma_decode_len(rg: Seq<u8>, c: Ctx)
+    ensures decode(rg, c) is Some ==> rg.len() >= 1,
+{
+    reveal(decode);
+}
+/// how `arm_ok` is established: the oracle's step and the code's new state
+proof fn lemma_arm_ok_intro(rg: Seq<u8>, ops: Seq<Seq<char>>, c: Ctx, f: Seq<char>, st: Seq<usize>, rg_out: Seq<u8>, f_out: Seq<char>, st_out: Seq<usize>, n: int, o2: Seq<Seq<char>>)
+    requires step(rg, ops, c) == Some((n, o2)), rg_out == rg.skip(n), repr(f_out, st_out, o2),
+    ensures arm_ok(rg, ops, c, f, st, rg_out, f_out, st_out),
 {
     reveal(arm_ok);
-    if decode(rg, c) matches Some((Tok::Operand(t), n)) && blen(f) <= usize::MAX && f_out =~= f + t && st_out =~= st.push(blen(f) as usize) && rg_out =~= rg.skip(n) {
-        if repr(f, st, ops) { lemma_repr_push(f, st, ops, tok_of(rg, c)->Operand_0); }
-    }
+}
+/// operand tokens: the offset is pushed, the operand's text is appended
+proof fn lemma_arm_operand(rg: Seq<u8>, ops: Seq<Seq<char>>, c: Ctx, f: Seq<char>, st: Seq<usize>, rg_out: Seq<u8>, f_out: Seq<char>, st_out: Seq<usize>, t: Seq<char>, n: int)
+    requires
+        repr(f, st, ops), decode(rg, c) == Some((Tok::Operand(t), n)), 0 < n <= rg.len(), blen(f) <= usize::MAX,
+        f_out == f + t, st_out == st.push(blen(f) as usize), rg_out == rg.skip(n),
+    ensures arm_ok(rg, ops, c, f, st, rg_out, f_out, st_out),
+{
+    lemma_repr_push(f, st, ops, t);
+    lemma_arm_ok_intro(rg, ops, c, f, st, rg_out, f_out, st_out, n, ops.push(t));
 }
 /// tokens that rewrite the top operand x into pre + x + post (text in front of it kept, stack unchanged)
-proof fn lemma_arm_top(rg: Seq<u8>, ops: Seq<Seq<char>>, c: Ctx, f: Seq<char>, st: Seq<usize>, rg_out: Seq<u8>, f_out: Seq<char>, st_out: Seq<usize>, pre: Seq<char>, post: Seq<char>)
-    ensures
-        (repr(f, st, ops) && ops.len() >= 1 && decode(rg, c) is Some && step(rg, ops, c) == Some((len_of(rg, c), ops.take(ops.len() - 1).push(pre + ops[ops.len() - 1] + post)))
-            && f_out =~= f.take(cidx(f, st.last() as int)) + pre + f.skip(cidx(f, st.last() as int)) + post && st_out =~= st && rg_out =~= rg.skip(len_of(rg, c)))
-            ==> arm_ok(rg, ops, c, f, st, rg_out, f_out, st_out),
+proof fn lemma_arm_top(rg: Seq<u8>, ops: Seq<Seq<char>>, c: Ctx, f: Seq<char>, st: Seq<usize>, rg_out: Seq<u8>, f_out: Seq<char>, st_out: Seq<usize>, pre: Seq<char>, post: Seq<char>, n: int)
+    requires
+        repr(f, st, ops), ops.len() >= 1, st.len() == ops.len(),
+        step(rg, ops, c) == Some((n, ops.take(ops.len() - 1).push(pre + ops[ops.len() - 1] + post))),
+        f_out == f.take(cidx(f, st.last() as int)) + pre + f.skip(cidx(f, st.last() as int)) + post, st_out == st, rg_out == rg.skip(n),
+    ensures arm_ok(rg, ops, c, f, st, rg_out, f_out, st_out),
 {
-    reveal(repr);
-    reveal(arm_ok);
-    if repr(f, st, ops) && ops.len() >= 1 && decode(rg, c) is Some && step(rg, ops, c) == Some((len_of(rg, c), ops.take(ops.len() - 1).push(pre + ops[ops.len() - 1] + post)))
-        && f_out =~= f.take(cidx(f, st.last() as int)) + pre + f.skip(cidx(f, st.last() as int)) + post && st_out =~= st && rg_out =~= rg.skip(len_of(rg, c)) {
-        let k = ops.len() - 1;
-        lemma_repr_at(f, st, ops, k);
-        lemma_cat_last(ops);
-        let p = cat(ops.take(k));
-        let nt = pre + ops[k] + post;
-        lemma_repr_push(p, st.take(k), ops.take(k), nt);
-        assert(st.take(k).push(st[k]) =~= st);
-        assert(f_out =~= p + nt);
-    }
+    let k = ops.len() - 1;
+    lemma_repr_at(f, st, ops, k);
+    lemma_cat_last(ops);
+    let p = cat(ops.take(k));
+    let nt = pre + ops[k] + post;
+    lemma_repr_push(p, st.take(k), ops.take(k), nt);
+    assert(st.take(k).push(st[k]) =~= st);
+    assert(f_out =~= p + nt);
+    lemma_arm_ok_intro(rg, ops, c, f, st, rg_out, f_out, st_out, n, ops.take(k).push(nt));
 }
 /// binary operators: the top operand is cut off, the operator and the operand are appended; one offset is dropped
-proof fn lemma_arm_binary(rg: Seq<u8>, ops: Seq<Seq<char>>, c: Ctx, f: Seq<char>, st: Seq<usize>, rg_out: Seq<u8>, f_out: Seq<char>, st_out: Seq<usize>)
-    ensures
-        (decode(rg, c) matches Some((Tok::Binary(op), n)) && n == 1 && repr(f, st, ops) && ops.len() >= 2
-            && f_out =~= f.take(cidx(f, st.last() as int)) + op + f.skip(cidx(f, st.last() as int)) && st_out =~= st.drop_last() && rg_out =~= rg.skip(1))
-            ==> arm_ok(rg, ops, c, f, st, rg_out, f_out, st_out),
+proof fn lemma_arm_binary(rg: Seq<u8>, ops: Seq<Seq<char>>, c: Ctx, f: Seq<char>, st: Seq<usize>, rg_out: Seq<u8>, f_out: Seq<char>, st_out: Seq<usize>, op: Seq<char>)
+    requires
+        repr(f, st, ops), ops.len() >= 2, st.len() == ops.len(),
+        step(rg, ops, c) == Some((1int, ops.take(ops.len() - 2).push(ops[ops.len() - 2] + op + ops[ops.len() - 1]))),
+        f_out == f.take(cidx(f, st.last() as int)) + op + f.skip(cidx(f, st.last() as int)), st_out == st.drop_last(), rg_out == rg.skip(1),
+    ensures arm_ok(rg, ops, c, f, st, rg_out, f_out, st_out),
 {
-    reveal(repr);
-    reveal(arm_ok);
-    if decode(rg, c) matches Some((Tok::Binary(op), n)) && n == 1 && repr(f, st, ops) && ops.len() >= 2
-        && f_out =~= f.take(cidx(f, st.last() as int)) + op + f.skip(cidx(f, st.last() as int)) && st_out =~= st.drop_last() && rg_out =~= rg.skip(1) {
-        let op = tok_of(rg, c)->Binary_0;
-        let n = ops.len() as int;
-        lemma_repr_at(f, st, ops, n - 1);
-        lemma_cat_last(ops);
-        lemma_repr_at(f, st, ops, n - 2);
-        let p = cat(ops.take(n - 2));
-        let p1 = cat(ops.take(n - 1));
-        assert(ops.take(n - 1).drop_last() =~= ops.take(n - 2));
-        assert(ops.take(n - 1).last() == ops[n - 2]);
-        assert(p1 == p + ops[n - 2]);
-        let nt = ops[n - 2] + op + ops[n - 1];
-        lemma_repr_push(p, st.take(n - 2), ops.take(n - 2), nt);
-        assert(st.take(n - 2).push(st[n - 2]) =~= st.drop_last());
-        assert(f_out =~= p + nt);
-    }
+    let n = ops.len() as int;
+    lemma_repr_at(f, st, ops, n - 1);
+    lemma_cat_last(ops);
+    lemma_repr_at(f, st, ops, n - 2);
+    let p = cat(ops.take(n - 2));
+    let p1 = cat(ops.take(n - 1));
+    assert(ops.take(n - 1).drop_last() =~= ops.take(n - 2));
+    assert(ops.take(n - 1).last() == ops[n - 2]);
+    assert(p1 == p + ops[n - 2]);
+    let nt = ops[n - 2] + op + ops[n - 1];
+    lemma_repr_push(p, st.take(n - 2), ops.take(n - 2), nt);
+    assert(st.take(n - 2).push(st[n - 2]) =~= st.drop_last());
+    assert(f_out =~= p + nt);
+    lemma_arm_ok_intro(rg, ops, c, f, st, rg_out, f_out, st_out, 1, ops.take(n - 2).push(nt));
+}
+/// tokens without display effect
+proof fn lemma_arm_skip(rg: Seq<u8>, ops: Seq<Seq<char>>, c: Ctx, f: Seq<char>, st: Seq<usize>, rg_out: Seq<u8>, f_out: Seq<char>, st_out: Seq<usize>, n: int)
+    requires repr(f, st, ops), step(rg, ops, c) == Some((n, ops)), f_out == f, st_out == st, rg_out == rg.skip(n),
+    ensures arm_ok(rg, ops, c, f, st, rg_out, f_out, st_out),
+{
+    lemma_arm_ok_intro(rg, ops, c, f, st, rg_out, f_out, st_out, n, ops);
 }
 /// bit masks of the code, in the arithmetic of the oracle
 proof fn lemma_u16_masks()
@@ -797,14 +826,6 @@ proof fn lemma_byte_masks()
     assert forall|b: u8| #![trigger b & 0x3F] (b & 0x3F) as int == (b as int) % 64 by { assert(b & 0x3F == b % 64) by (bit_vector); }
     assert forall|b: u8| #![trigger b & 0x80] (b & 0x80 != 0x80) == ((b as int) / 128 == 0) by { assert((b & 0x80 != 0x80) == (b / 128 == 0)) by (bit_vector); }
     assert forall|b: u8| #![trigger b & 0x40] (b & 0x40 != 0x40) == (((b as int) / 64) % 2 == 0) by { assert((b & 0x40 != 0x40) == ((b / 64) % 2 == 0)) by (bit_vector); }
-}
-
-/// tokens without display effect
-proof fn lemma_arm_skip(rg: Seq<u8>, ops: Seq<Seq<char>>, c: Ctx, f: Seq<char>, st: Seq<usize>, rg_out: Seq<u8>, f_out: Seq<char>, st_out: Seq<usize>)
-    ensures
-        (decode(rg, c) matches Some((Tok::Skip, n)) && f_out =~= f && st_out =~= st && rg_out =~= rg.skip(n)) ==> arm_ok(rg, ops, c, f, st, rg_out, f_out, st_out),
-{
-    reveal(arm_ok);
 }
 /// a token outside the oracle: nothing is claimed
 proof fn lemma_arm_none(rg: Seq<u8>, ops: Seq<Seq<char>>, c: Ctx, f: Seq<char>, st: Seq<usize>, rg_out: Seq<u8>, f_out: Seq<char>, st_out: Seq<usize>)
@@ -925,45 +946,38 @@ proof fn lemma_arg_slice(q: Seq<char>, offs: Seq<usize>, a: Seq<Seq<char>>, k: i
     assert(q.subrange(pk.len() as int, pk1.len() as int) =~= a[k]);
 }
 /// a function call with arguments: the last argc operands are replaced by NAME(arg,..,arg)
-proof fn lemma_arm_func(rg: Seq<u8>, ops: Seq<Seq<char>>, c: Ctx, f: Seq<char>, st: Seq<usize>, rg_out: Seq<u8>, f_out: Seq<char>, st_out: Seq<usize>, name: Seq<char>, argc: int)
-    ensures
-        (repr(f, st, ops) && 0 < argc <= ops.len() && decode(rg, c) is Some && decode(rg, c) == Some((Tok::Func(name, argc), len_of(rg, c))) && 0 < len_of(rg, c) <= rg.len()
-            && f_out =~= cat(ops.take(ops.len() - argc)) + name + seq!['('] + join(ops.skip(ops.len() - argc)) + seq![')']
-            && st_out =~= st.take(ops.len() - argc).push(st[ops.len() - argc]) && rg_out =~= rg.skip(len_of(rg, c)))
-            ==> arm_ok(rg, ops, c, f, st, rg_out, f_out, st_out),
+proof fn lemma_arm_func(rg: Seq<u8>, ops: Seq<Seq<char>>, c: Ctx, f: Seq<char>, st: Seq<usize>, rg_out: Seq<u8>, f_out: Seq<char>, st_out: Seq<usize>, name: Seq<char>, argc: int, n: int)
+    requires
+        repr(f, st, ops), 0 < argc <= ops.len(), st.len() == ops.len(),
+        step(rg, ops, c) == Some((n, ops.take(ops.len() - argc).push(name + seq!['('] + join(ops.skip(ops.len() - argc)) + seq![')']))),
+        f_out == cat(ops.take(ops.len() - argc)) + name + seq!['('] + join(ops.skip(ops.len() - argc)) + seq![')'],
+        st_out == st.take(ops.len() - argc).push(st[ops.len() - argc]), rg_out == rg.skip(n),
+    ensures arm_ok(rg, ops, c, f, st, rg_out, f_out, st_out),
 {
-    reveal(repr);
-    reveal(arm_ok);
-    if repr(f, st, ops) && 0 < argc <= ops.len() && decode(rg, c) is Some && decode(rg, c) == Some((Tok::Func(name, argc), len_of(rg, c))) && 0 < len_of(rg, c) <= rg.len()
-        && f_out =~= cat(ops.take(ops.len() - argc)) + name + seq!['('] + join(ops.skip(ops.len() - argc)) + seq![')']
-        && st_out =~= st.take(ops.len() - argc).push(st[ops.len() - argc]) && rg_out =~= rg.skip(len_of(rg, c)) {
-        let k = ops.len() - argc;
-        lemma_repr_at(f, st, ops, k);
-        let p = cat(ops.take(k));
-        let nt = name + seq!['('] + join(ops.skip(k)) + seq![')'];
-        lemma_repr_push(p, st.take(k), ops.take(k), nt);
-        assert(f_out =~= p + nt);
-    }
+    let k = ops.len() - argc;
+    lemma_repr_at(f, st, ops, k);
+    let p = cat(ops.take(k));
+    let nt = name + seq!['('] + join(ops.skip(k)) + seq![')'];
+    lemma_repr_push(p, st.take(k), ops.take(k), nt);
+    assert(f_out =~= p + nt);
+    lemma_arm_ok_intro(rg, ops, c, f, st, rg_out, f_out, st_out, n, ops.take(k).push(nt));
 }
 /// a function call without arguments: NAME() is pushed
-proof fn lemma_arm_func0(rg: Seq<u8>, ops: Seq<Seq<char>>, c: Ctx, f: Seq<char>, st: Seq<usize>, rg_out: Seq<u8>, f_out: Seq<char>, st_out: Seq<usize>, name: Seq<char>)
-    ensures
-        (repr(f, st, ops) && decode(rg, c) is Some && decode(rg, c) == Some((Tok::Func(name, 0int), len_of(rg, c))) && 0 < len_of(rg, c) <= rg.len() && blen(f) <= usize::MAX
-            && f_out =~= f + name + seq!['(', ')'] && st_out =~= st.push(blen(f) as usize) && rg_out =~= rg.skip(len_of(rg, c)))
-            ==> arm_ok(rg, ops, c, f, st, rg_out, f_out, st_out),
+proof fn lemma_arm_func0(rg: Seq<u8>, ops: Seq<Seq<char>>, c: Ctx, f: Seq<char>, st: Seq<usize>, rg_out: Seq<u8>, f_out: Seq<char>, st_out: Seq<usize>, name: Seq<char>, n: int)
+    requires
+        repr(f, st, ops), blen(f) <= usize::MAX,
+        step(rg, ops, c) == Some((n, ops.take(ops.len() as int).push(name + seq!['('] + join(ops.skip(ops.len() as int)) + seq![')']))),
+        f_out == f + name + seq!['(', ')'], st_out == st.push(blen(f) as usize), rg_out == rg.skip(n),
+    ensures arm_ok(rg, ops, c, f, st, rg_out, f_out, st_out),
 {
-    reveal(repr);
-    reveal(arm_ok);
-    if repr(f, st, ops) && decode(rg, c) is Some && decode(rg, c) == Some((Tok::Func(name, 0int), len_of(rg, c))) && 0 < len_of(rg, c) <= rg.len() && blen(f) <= usize::MAX
-        && f_out =~= f + name + seq!['(', ')'] && st_out =~= st.push(blen(f) as usize) && rg_out =~= rg.skip(len_of(rg, c)) {
-        let n = ops.len() as int;
-        assert(ops.skip(n) =~= Seq::<Seq<char>>::empty());
-        assert(ops.take(n) =~= ops);
-        let nt = name + seq!['('] + join(ops.skip(n)) + seq![')'];
-        assert(nt =~= name + seq!['(', ')']);
-        lemma_repr_push(f, st, ops, nt);
-        assert(f_out =~= f + nt);
-    }
+    let m = ops.len() as int;
+    assert(ops.skip(m) =~= Seq::<Seq<char>>::empty());
+    assert(ops.take(m) =~= ops);
+    let nt = name + seq!['('] + join(ops.skip(m)) + seq![')'];
+    assert(nt =~= name + seq!['(', ')']);
+    lemma_repr_push(f, st, ops, nt);
+    assert(f_out =~= f + nt);
+    lemma_arm_ok_intro(rg, ops, c, f, st, rg_out, f_out, st_out, n, ops.push(nt));
 }
 
 // =====================================================================================================================
@@ -989,7 +1003,7 @@ proof fn step_operand(a: A, rg: Seq<u8>, ops: Seq<Seq<char>>, c: Ctx, f: Seq<cha
         blen(f) <= usize::MAX && st_out == st.push(blen(f) as usize),
     ensures arm_ok(rg, ops, c, f, st, rg_out, f_out, st_out),
 {
-    lemma_arm_operand(rg, ops, c, f, st, rg_out, f_out, st_out);
+    lemma_arm_operand(rg, ops, c, f, st, rg_out, f_out, st_out, t, n);
 }
 /// PtgUplus / PtgUminus: the sign goes in front of the top operand
 proof fn step_prefix(a: A, rg: Seq<u8>, ops: Seq<Seq<char>>, c: Ctx, f: Seq<char>, st: Seq<usize>, rg_out: Seq<u8>, f_out: Seq<char>, st_out: Seq<usize>, ch: char)
@@ -1006,8 +1020,12 @@ proof fn step_prefix(a: A, rg: Seq<u8>, ops: Seq<Seq<char>>, c: Ctx, f: Seq<char
     ensures arm_ok(rg, ops, c, f, st, rg_out, f_out, st_out),
 {
     lemma_repr_basics(f, st, ops);
-    reveal(decode);
-    lemma_arm_top(rg, ops, c, f, st, rg_out, f_out, st_out, seq![ch], Seq::empty());
+    lemma_decode_len(rg, c);
+    let ci = cidx(f, st.last() as int);
+    let x = ops[ops.len() - 1];
+    assert(seq![ch] + x + Seq::<char>::empty() =~= seq![ch] + x);
+    assert(f_out =~= f.take(ci) + seq![ch] + f.skip(ci) + Seq::<char>::empty());
+    lemma_arm_top(rg, ops, c, f, st, rg_out, f_out, st_out, seq![ch], Seq::empty(), 1);
 }
 /// PtgPercent: `%` behind the top operand
 proof fn step_percent(a: A, rg: Seq<u8>, ops: Seq<Seq<char>>, c: Ctx, f: Seq<char>, st: Seq<usize>, rg_out: Seq<u8>, f_out: Seq<char>, st_out: Seq<usize>)
@@ -1024,14 +1042,14 @@ proof fn step_percent(a: A, rg: Seq<u8>, ops: Seq<Seq<char>>, c: Ctx, f: Seq<cha
     ensures arm_ok(rg, ops, c, f, st, rg_out, f_out, st_out),
 {
     lemma_repr_basics(f, st, ops);
-    reveal(decode);
+    lemma_decode_len(rg, c);
     lemma_repr_at(f, st, ops, ops.len() - 1);
     let ci = cidx(f, st.last() as int);
     assert(f =~= f.take(ci) + f.skip(ci));
     let x = ops[ops.len() - 1];
     assert(Seq::<char>::empty() + x + seq!['%'] =~= x + seq!['%']);
     assert(f_out =~= f.take(ci) + Seq::<char>::empty() + f.skip(ci) + seq!['%']);
-    lemma_arm_top(rg, ops, c, f, st, rg_out, f_out, st_out, Seq::empty(), seq!['%']);
+    lemma_arm_top(rg, ops, c, f, st, rg_out, f_out, st_out, Seq::empty(), seq!['%'], 1);
 }
 /// PtgParen: parentheses around the top operand
 proof fn step_paren(a: A, rg: Seq<u8>, ops: Seq<Seq<char>>, c: Ctx, f: Seq<char>, st: Seq<usize>, rg_out: Seq<u8>, f_out: Seq<char>, st_out: Seq<usize>)
@@ -1048,10 +1066,10 @@ proof fn step_paren(a: A, rg: Seq<u8>, ops: Seq<Seq<char>>, c: Ctx, f: Seq<char>
     ensures arm_ok(rg, ops, c, f, st, rg_out, f_out, st_out),
 {
     lemma_repr_basics(f, st, ops);
-    reveal(decode);
+    lemma_decode_len(rg, c);
     let ci = cidx(f, st.last() as int);
     assert(f_out =~= f.take(ci) + seq!['('] + f.skip(ci) + seq![')']);
-    lemma_arm_top(rg, ops, c, f, st, rg_out, f_out, st_out, seq!['('], seq![')']);
+    lemma_arm_top(rg, ops, c, f, st, rg_out, f_out, st_out, seq!['('], seq![')'], 1);
 }
 /// PtgAttrSum: SUM( ) around the top operand
 proof fn step_sum(a: A, rg: Seq<u8>, ops: Seq<Seq<char>>, c: Ctx, f: Seq<char>, st: Seq<usize>, rg_out: Seq<u8>, f_out: Seq<char>, st_out: Seq<usize>)
@@ -1070,7 +1088,7 @@ proof fn step_sum(a: A, rg: Seq<u8>, ops: Seq<Seq<char>>, c: Ctx, f: Seq<char>, 
     lemma_repr_basics(f, st, ops);
     reveal_strlit(")");
     assert(")"@ =~= seq![')']);
-    lemma_arm_top(rg, ops, c, f, st, rg_out, f_out, st_out, "SUM("@, seq![')']);
+    lemma_arm_top(rg, ops, c, f, st, rg_out, f_out, st_out, "SUM("@, seq![')'], 4);
 }
 /// binary operators: a b -> a OP b (the operator goes between the two topmost operands, in evaluation order)
 proof fn step_binary(a: A, rg: Seq<u8>, ops: Seq<Seq<char>>, c: Ctx, f: Seq<char>, st: Seq<usize>, rg_out: Seq<u8>, f_out: Seq<char>, st_out: Seq<usize>, op: Seq<char>)
@@ -1086,20 +1104,23 @@ proof fn step_binary(a: A, rg: Seq<u8>, ops: Seq<Seq<char>>, c: Ctx, f: Seq<char
         st_out == st.drop_last(),
     ensures arm_ok(rg, ops, c, f, st, rg_out, f_out, st_out),
 {
-    lemma_arm_binary(rg, ops, c, f, st, rg_out, f_out, st_out);
+    lemma_repr_basics(f, st, ops);
+    lemma_decode_len(rg, c);
+    lemma_arm_binary(rg, ops, c, f, st, rg_out, f_out, st_out, op);
 }
 /// tokens without display effect (PtgAttrSemi / If / Choose / Goto / Baxcel)
 proof fn step_skip(a: A, rg: Seq<u8>, ops: Seq<Seq<char>>, c: Ctx, f: Seq<char>, st: Seq<usize>, rg_out: Seq<u8>, f_out: Seq<char>, st_out: Seq<usize>, n: int)
     requires
+        repr(f, st, ops),
         //# C14.oracle_token
-        decode(rg, c) == Some((Tok::Skip, n)),
+        decode(rg, c) == Some((Tok::Skip, n)) && 0 < n <= rg.len(),
         //# C14.token_length
         rg_out == rg.skip(n),
         //# C14.no_display_effect
         f_out == f && st_out == st,
     ensures arm_ok(rg, ops, c, f, st, rg_out, f_out, st_out),
 {
-    lemma_arm_skip(rg, ops, c, f, st, rg_out, f_out, st_out);
+    lemma_arm_skip(rg, ops, c, f, st, rg_out, f_out, st_out, n);
 }
 /// tokens outside the oracle's scope: nothing is claimed
 proof fn step_none(a: A, rg: Seq<u8>, ops: Seq<Seq<char>>, c: Ctx, f: Seq<char>, st: Seq<usize>, rg_out: Seq<u8>, f_out: Seq<char>, st_out: Seq<usize>)
@@ -1122,8 +1143,8 @@ proof fn step_func(a: A, rg: Seq<u8>, ops: Seq<Seq<char>>, c: Ctx, f: Seq<char>,
         st_out == st.take(ops.len() - argc).push(st[ops.len() - argc]),
     ensures arm_ok(rg, ops, c, f, st, rg_out, f_out, st_out),
 {
-    reveal(decode);
-    lemma_arm_func(rg, ops, c, f, st, rg_out, f_out, st_out, name, argc);
+    lemma_repr_basics(f, st, ops);
+    lemma_arm_func(rg, ops, c, f, st, rg_out, f_out, st_out, name, argc, n);
 }
 /// PtgFunc / PtgFuncVar without arguments: NAME() is a new operand
 proof fn step_func0(a: A, rg: Seq<u8>, ops: Seq<Seq<char>>, c: Ctx, f: Seq<char>, st: Seq<usize>, rg_out: Seq<u8>, f_out: Seq<char>, st_out: Seq<usize>, name: Seq<char>, n: int)
@@ -1139,10 +1160,10 @@ proof fn step_func0(a: A, rg: Seq<u8>, ops: Seq<Seq<char>>, c: Ctx, f: Seq<char>
         blen(f) <= usize::MAX && st_out == st.push(blen(f) as usize),
     ensures arm_ok(rg, ops, c, f, st, rg_out, f_out, st_out),
 {
-    reveal(decode);
     reveal_strlit("()");
     assert("()"@ =~= seq!['(', ')']);
-    lemma_arm_func0(rg, ops, c, f, st, rg_out, f_out, st_out, name);
+    assert(f_out =~= f + name + seq!['(', ')']);
+    lemma_arm_func0(rg, ops, c, f, st, rg_out, f_out, st_out, name, n);
 }
 /// the text of the call as the pieces are written: NAME ( a1, a2, .. an, <- last comma removed, )
 proof fn lemma_func_text(pp: Seq<char>, nm: Seq<char>, aa: Seq<Seq<char>>, hd: Seq<char>, fl: Seq<char>, fp: Seq<char>, ff: Seq<char>)
@@ -1294,93 +1315,6 @@ proof fn lemma_s_window(q: Seq<char>, offs: Seq<usize>, k: int)
 
 //@@ props C14
 // =====================================================================================================================
-// Token kinds whose rendering is KNOWN to deviate (registered findings).  Each lemma takes what the code does as its hypothesis
-// (checked against the real code where the lemma is called) and states what [MS-XLS] requires as its conclusion; the conclusions
-// that do not follow are the failing obligations.  (Kept out of the big function: a false claim inside it makes every re-check of
-// the whole loop body expensive.)
-// =====================================================================================================================
-/// PtgRef: the code decides the two `$` from bits 7 and 6 of the high byte of the column field
-proof fn ptgref_dollars(b3: u8, cf: int, f: Seq<char>, g1: Seq<char>, g2: Seq<char>, g3: Seq<char>)
-    requires
-        0 <= cf < 65536, cf / 256 == b3 as int,
-        g1 == (if b3 & 0x80 != 0x80 { f.push('$') } else { f }),
-        g3 == (if b3 & 0x40 != 0x40 { g2.push('$') } else { g2 }),
-    ensures
-        //# C14.ptgref_column_dollar_iff_absolute
-        g1 == f + dollar(!f_col_rel(cf)),
-        //# C14.ptgref_row_dollar_iff_absolute
-        g3 == g2 + dollar(!f_row_rel(cf)),
-{
-    lemma_byte_masks();
-    lemma_push_add(f, '$'); lemma_push_add(g2, '$');
-}
-/// PtgRef3d: the code takes `colu << 2` for the column and decides the `$` from bits 1 and 0 of the column field
-proof fn ptgref3d_reference(colu: u16, h1: Seq<char>, h2: Seq<char>, h3: Seq<char>, h4: Seq<char>)
-    requires
-        h2 == (if colu & 2 != 0 { h1.push('!').push('$') } else { h1.push('!') }),
-        h3 == h2 + col_name(((colu << 2) as u32) as int),
-        h4 == (if colu & 1 != 0 { h3.push('$') } else { h3 }),
-    ensures
-        //# C14.ptgref3d_column_dollar_iff_absolute
-        h2 == h1 + seq!['!'] + dollar(!f_col_rel(colu as int)),
-        //# C14.ptgref3d_column_letters
-        h3 == h2 + col_name(f_col(colu as int)),
-        //# C14.ptgref3d_row_dollar_iff_absolute
-        h4 == h3 + dollar(!f_row_rel(colu as int)),
-{
-    lemma_u16_masks();
-    lemma_push_add(h1, '!'); lemma_push_add(h1.push('!'), '$'); lemma_push_add(h3, '$');
-    lemma_assoc(h1, seq!['!'], seq!['$']);
-}
-/// PtgArea / PtgArea3d: the code writes `$` in front of all four components and takes the 16-bit column fields as the columns
-proof fn ptgarea_text(f: Seq<char>, r1: int, r2: int, cf1: int, cf2: int, f_out: Seq<char>)
-    requires
-        0 <= cf1 < 65536, 0 <= cf2 < 65536,
-        f_out == f.push('$') + col_name(cf1) + "$"@ + dec((r1 + 1) as nat) + ":$"@ + col_name(cf2) + "$"@ + dec((r2 + 1) as nat),
-    ensures
-        //# C14.ptgarea_text_when_absolute
-        cf1 < 16384 && cf2 < 16384 ==> f_out == f + area_text(r1, r2, cf1, cf2),
-        //# C14.ptgarea_dollar_iff_absolute_and_column_masked
-        f_out == f + area_text(r1, r2, cf1, cf2),
-{
-    reveal_strlit("$"); reveal_strlit(":$");
-    lemma_area_text(r1, r2, cf1, cf2); lemma_cell_text(r1, cf1); lemma_cell_text(r2, cf2);
-    if cf1 < 16384 && cf2 < 16384 {
-        assert(f_out =~= f + area_text(r1, r2, cf1, cf2));
-    }
-}
-/// PtgArea3d / PtgRefErr3d / PtgAreaErr3d: the code takes the sheet name at index ixti of the sheet list
-proof fn ptg3d_sheet(ixti: int, c: Ctx, shc: Seq<char>)
-    requires
-        sheet_name(ixti, c) is Some,
-        shc == (if ixti < c.sheets.len() { c.sheets[ixti] } else { "#REF"@ }),
-    ensures
-        //# C14.sheet_named_through_xti_when_xti_is_identity
-        c.xtis[ixti].itab_first as int == ixti ==> shc == sheet_name(ixti, c)->Some_0,
-        //# C14.sheet_named_through_xti
-        shc == sheet_name(ixti, c)->Some_0,
-{}
-/// binary operators: the code's table has `>` for 0x0C and `>=` for 0x0D, and the oracle's text for the other thirteen
-proof fn binary_symbol(p: int, op: Seq<char>)
-    requires
-        0x03 <= p <= 0x11,
-        p == 0x0C ==> op == ">"@,
-        p == 0x0D ==> op == ">="@,
-        p != 0x0C && p != 0x0D ==> op == binop(p),
-    ensures
-        //# C14.binary_operator_symbol
-        op == binop(p),
-{}
-/// PtgStr: the code advances by 2 + cch bytes behind the ptg
-proof fn ptgstr_length(cch: int, hb: bool, adv: int)
-    requires 0 <= cch < 256, adv == 2 + cch,
-    ensures
-        //# C14.ptgstr_token_length_one_or_two_bytes_per_character
-        adv == 2 + cch * xl_width(hb),
-{}
-
-//@@ props C14
-// =====================================================================================================================
 // The loop invariant of the functional copy, as one opaque predicate (so that re-establishing it after the `match` is a look-up)
 // =====================================================================================================================
 /// the oracle renders the whole formula, the rest of its run starts from the code's state (remaining bytes rg, operands ops),
@@ -1513,11 +1447,9 @@ verus! {
                     let ixti = le16(rg_in.skip(1));
                     let r1 = le16(rg_in.skip(1).skip(2)); let r2 = le16(rg_in.skip(1).skip(4)); let cf1 = le16(rg_in.skip(1).skip(6)); let cf2 = le16(rg_in.skip(1).skip(8));
                     let t = sh + seq!['!'] + area_text(r1, r2, cf1, cf2);
-                    let shc = if ixti < ctx.sheets.len() { ctx.sheets[ixti] } else { "#REF"@ };
-                    ptg3d_sheet(ixti, ctx, shc);
-                    lemma_push_add(f_in + shc, '!');
-                    ptgarea_text(f_in + shc + seq!['!'], r1, r2, cf1, cf2, formula@);
-                    lemma_assoc(f_in, sh + seq!['!'], area_text(r1, r2, cf1, cf2)); lemma_assoc(f_in, sh, seq!['!']);
+                    lemma_area_text(r1, r2, cf1, cf2);
+                    //# C14.ptgarea3d_sheet_through_xti_and_text
+                    assert(formula@ =~= f_in + t);
                     assert(rgce@ =~= rg_in.skip(11));
                     step_operand(A::ptgarea3d, rg_in, ops_in, ctx, f_in, st_in, rgce@, formula@, stack@, t, 11);
                     lemma_advance(__p_rgce@, ctx, rg_in, ops_in, f_in, st_in, rgce@, formula@, stack@);
@@ -1527,8 +1459,7 @@ verus! {
                     let sh = sheet_name(le16(rg_in.skip(1)), ctx)->Some_0;
                     let ixti = le16(rg_in.skip(1));
                     let t = sh + seq!['!'] + "#REF!"@;
-                    let shc = if ixti < ctx.sheets.len() { ctx.sheets[ixti] } else { "#REF"@ };
-                    ptg3d_sheet(ixti, ctx, shc);
+                    //# C14.ptgreferr3d_sheet_through_xti
                     assert(formula@ =~= f_in + t);
                     assert(rgce@ =~= rg_in.skip(7));
                     step_operand(A::ptgreferr3d, rg_in, ops_in, ctx, f_in, st_in, rgce@, formula@, stack@, t, 7);
@@ -1539,8 +1470,7 @@ verus! {
                     let sh = sheet_name(le16(rg_in.skip(1)), ctx)->Some_0;
                     let ixti = le16(rg_in.skip(1));
                     let t = sh + seq!['!'] + "#REF!"@;
-                    let shc = if ixti < ctx.sheets.len() { ctx.sheets[ixti] } else { "#REF"@ };
-                    ptg3d_sheet(ixti, ctx, shc);
+                    //# C14.ptgareaerr3d_sheet_through_xti
                     assert(formula@ =~= f_in + t);
                     assert(rgce@ =~= rg_in.skip(11));
                     step_operand(A::ptgareaerr3d, rg_in, ops_in, ctx, f_in, st_in, rgce@, formula@, stack@, t, 11);
@@ -1553,7 +1483,6 @@ verus! {
                 }
 //@@ before /\}\s*0x12 =>/
                 proof {
-                    binary_symbol(rg_in[0] as int, op@);
                     assert(stack@ =~= st_in.drop_last());
                     assert(rgce@ =~= rg_in.skip(1));
                     step_binary(A::binary, rg_in, ops_in, ctx, f_in, st_in, rgce@, formula@, stack@, op@);
@@ -1599,8 +1528,8 @@ verus! {
                     assert(d.skip(1).subrange(1, 1 + n) =~= d.subrange(2, 2 + n));
                     //# C14.ptgstr_text_in_quotes
                     assert(formula@ =~= f_in + t);
-                    assert(rgce@ =~= rg_in.skip(3 + d[0] as int));
-                    ptgstr_length(d[0] as int, hb, 2 + d[0] as int);
+                    //# C14.ptgstr_token_length_one_or_two_bytes_per_character
+                    assert(rgce@ =~= rg_in.skip(3 + n));
                     step_operand(A::ptgstr, rg_in, ops_in, ctx, f_in, st_in, rgce@, formula@, stack@, t, 3 + n);
                     lemma_advance(__p_rgce@, ctx, rg_in, ops_in, f_in, st_in, rgce@, formula@, stack@);
                 }
@@ -1663,7 +1592,9 @@ verus! {
 //@@ before /\}\s*0x2A \| 0x4A \| 0x6A =>/
                 proof {
                     let r1 = le16(rg_in.skip(1)); let r2 = le16(rg_in.skip(1).skip(2)); let cf1 = le16(rg_in.skip(1).skip(4)); let cf2 = le16(rg_in.skip(1).skip(6));
-                    ptgarea_text(f_in, r1, r2, cf1, cf2, formula@);
+                    lemma_area_text(r1, r2, cf1, cf2);
+                    //# C14.ptgarea_text
+                    assert(formula@ =~= f_in + area_text(r1, r2, cf1, cf2));
                     assert(rgce@ =~= rg_in.skip(9));
                     step_operand(A::ptgarea, rg_in, ops_in, ctx, f_in, st_in, rgce@, formula@, stack@, area_text(r1, r2, cf1, cf2), 9);
                     lemma_advance(__p_rgce@, ctx, rg_in, ops_in, f_in, st_in, rgce@, formula@, stack@);
@@ -1685,11 +1616,15 @@ verus! {
                     step_none(A::ptgnamex, rg_in, ops_in, ctx, f_in, st_in, rgce@, formula@, stack@);
                     lemma_advance(__p_rgce@, ctx, rg_in, ops_in, f_in, st_in, rgce@, formula@, stack@);
                 }
-//@@ before /push_column\(col as u32, &mut formula\);/#1of2
+//@@ before /push_column\(col as u32, &mut formula\);\s*if rgce\[3\]/
                 let ghost rw = le16(rg_in.skip(1));
                 let ghost cf = le16(rg_in.skip(1).skip(2));
                 let ghost g1 = formula@;
-//@@ after /push_column\(col as u32, &mut formula\);/#1of2
+                proof {
+                    //# C14.ptgref_column_dollar_iff_absolute
+                    assert(g1 =~= f_in + dollar(!f_col_rel(cf)));
+                }
+//@@ after /push_column\(col as u32, &mut formula\);(?=\s*if rgce\[3\])/
                 let ghost g2 = formula@;
                 proof {
                     //# C14.ptgref_column_letters
@@ -1697,7 +1632,10 @@ verus! {
                 }
 //@@ before /formula\.push_str\(&format!/
                 let ghost g3 = formula@;
-                proof { ptgref_dollars(rg_in[4], cf, f_in, g1, g2, g3); }
+                proof {
+                    //# C14.ptgref_row_dollar_iff_absolute
+                    assert(g3 =~= g2 + dollar(!f_row_rel(cf)));
+                }
 //@@ after /formula\.push_str\(&format!\([^;]*;/
                 proof {
                     //# C14.ptgref_row_number
@@ -1711,13 +1649,25 @@ verus! {
                     //# C14.ptgref3d_sheet_through_xti
                     assert(h1 =~= f_in + sheet_name(le16(rg_in.skip(1)), ctx)->Some_0);
                 }
-//@@ before /push_column\(col as u32, &mut formula\);/#0of2
+//@@ before /push_column\(col as u32, &mut formula\);\s*if colu/
                 let ghost h2 = formula@;
-//@@ after /push_column\(col as u32, &mut formula\);/#0of2
+                proof {
+                    lemma_u16_masks();
+                    //# C14.ptgref3d_column_dollar_iff_absolute
+                    assert(h2 =~= h1 + seq!['!'] + dollar(!f_col_rel(cf3)));
+                }
+//@@ after /push_column\(col as u32, &mut formula\);(?=\s*if colu)/
                 let ghost h3 = formula@;
+                proof {
+                    //# C14.ptgref3d_column_letters
+                    assert(h3 =~= h2 + col_name(f_col(cf3)));
+                }
 //@@ before /write!\(&mut formula, "\{\}", rowu/
                 let ghost h4 = formula@;
-                proof { ptgref3d_reference(colu, h1, h2, h3, h4); }
+                proof {
+                    //# C14.ptgref3d_row_dollar_iff_absolute
+                    assert(h4 =~= h3 + dollar(!f_row_rel(cf3)));
+                }
 //@@ after /write!\(&mut formula, "\{\}", rowu[^;]*;/
                 proof {
                     //# C14.ptgref3d_row_number
@@ -1734,12 +1684,32 @@ verus! {
 //@@ closure 1
 -> (r: &str) ensures r@ == sh@
 //@@ closure 2
--> (r: &str) ensures r@ == s@
+-> (r: Option<&String>)
+    ensures
+        (xti.itab_first as usize) < sheets@.len() ==> r == Some(&sheets@[(xti.itab_first as usize) as int]),
+        (xti.itab_first as usize) >= sheets@.len() ==> r is None,
 //@@ closure 3
 -> (r: &str) ensures r@ == s@
 //@@ closure 4
--> (r: &str) ensures r@ == s@
+-> (r: Option<&String>)
+    ensures
+        (xti.itab_first as usize) < sheets@.len() ==> r == Some(&sheets@[(xti.itab_first as usize) as int]),
+        (xti.itab_first as usize) >= sheets@.len() ==> r is None,
 //@@ closure 5
+-> (r: &str) ensures r@ == s@
+//@@ closure 6
+-> (r: Option<&String>)
+    ensures
+        (xti.itab_first as usize) < sheets@.len() ==> r == Some(&sheets@[(xti.itab_first as usize) as int]),
+        (xti.itab_first as usize) >= sheets@.len() ==> r is None,
+//@@ closure 7
+-> (r: &str) ensures r@ == s@
+//@@ closure 8
+-> (r: Option<&(String, String)>)
+    ensures
+        i < names@.len() ==> r == Some(&names@[i as int]),
+        i >= names@.len() ==> r is None,
+//@@ closure 9
 -> (r: &str) ensures r@ == n.0@
 //@@ after /let mut args = stack\.split_off\(args_start\);/
                     let ghost k0 = args_start as int;
@@ -1788,7 +1758,7 @@ verus! {
                             assert(w@[0] == args@[k3] && w@[1] == args@[k3 + 1]);
                             lemma_arg_slice(qq, args@, aa, k3);
                         }
-//@@ after /formula\.push\(','\);/
+//@@ before /\}\s*formula\.pop\(\);/
                         proof {
                             assert(formula@ =~= hd + joinc(aa, k3 + 1));
                             k3 = k3 + 1;
@@ -1798,7 +1768,7 @@ verus! {
                     proof { lemma_joinc_join(aa, argc as int); }
 //@@ after /formula\.pop\(\);/
                     let ghost fp = formula@;
-//@@ after /formula\.push\('\)'\);/#1of2
+//@@ before /\}\s*else\s*\{\s*stack\.push\(formula\.len\(\)\);\s*formula\.push_str\(\s*crate::utils::FTAB/
                     proof {
                         lemma_func_text(pp, nm, aa, hd, fl, fp, formula@);
                         assert(rgce@ =~= rg_in.skip(len_of(rg_in, ctx)));
@@ -2059,7 +2029,7 @@ verus! {
                             assert(w@[0] == args@[k3] && w@[1] == args@[k3 + 1]);
                             lemma_s_window(fargs@, args@, k3);
                         }
-//@@ after /formula\.push\(','\);/
+//@@ before /\}\s*formula\.pop\(\);/
                         proof { k3 = k3 + 1; }
 //@@ before /formula\.pop\(\);/
                     proof { ext_len(hd, formula@); ext_trans(base, hd, formula@); ext_drop_last(base, formula@); }
